@@ -13,11 +13,17 @@ CLAIMED = {
    text="Same engine as C10 with a lock-step twin whose integer time index is shifted by a constant: after every fit/update the cutoff is checked, every predict is checked for length, exact labels (cutoff+step / requested absolute points), finiteness, independence of the value at step h from the other requested steps (gapped vs contiguous horizon on a pickled copy), and equality of values with the shifted twin, across horizons given at fit or predict and reused over moving cutoffs, including tuned forecasters and composites. Only the history-dependent clauses are simulation material; input-only clauses are exercised as far as the generated histories vary series, origins and horizons.",
    note="Integer RangeIndex/Index only (PeriodIndex arithmetic is broken under pandas 2; Timestamp.freq is gone); out-of-sample horizons; arima/bats/tbats/prophet not importable.",
    technique="deterministic simulation: seeded operation histories with lock-step shifted twin"),
+ "C07": dict(level="exploration", ref="DESIGN.md section 7 C07",
+   text="evaluate() is run on a recording spy that wraps a real forecaster, with a simulated clock behind time.time (forward/backward jumps); the oracle replays the recorded call history against the splitter's own yields: one row per split, exact training window handed to fit/update, exactly one predict per fold for exactly the test points, no observation at or after the fold's first test point before its prediction (no-leak invariant over the event log), cutoff and window length per row, score == metric(y_true, y_pred) recomputed with named arguments on the recorded forecast (symmetric, asymmetric and order-sensitive scorers of both directions), returned data, and equality with an honest recomputation on a fresh clone (refit and update strategies, with and without X).",
+   note="Splitter yields are taken as given (C01 not claimed). Times are never compared. Trusts compat layer incl. the mean_squared_error(squared=) shim.",
+   technique="deterministic simulation: recorded call history of a spy peer vs reference replay, simulated clock"),
+ "C08": dict(level="exploration", ref="DESIGN.md section 7 C08",
+   text="Grid and randomized search over plain, pipeline (nested names) and multiplexer forecasters with metrics of both directions; candidate evaluation runs under the simulated joblib scheduler (FIFO, out-of-order, baton-passing interleaving at entries of repo functions; n_jobs and pre_dispatch varied). Oracle: candidate list == ParameterGrid/ParameterSampler order, every cv_results_ row == an independent sequential evaluate() of a clone, best_index_/best_score_/best_params_ attain the optimum in the declared direction (ties accepted), identical table for a sibling with another n_jobs/schedule, lock-step of the refitted tuner with a directly built best forecaster through predict/update/update_predict histories, NotFittedError for every method when refit=False.",
+   note="Interleaving pre-empts only at entries of /repo functions; nested Parallel inside a task runs sequentially. Trusts compat layer.",
+   technique="deterministic simulation: seeded schedules of parallel candidate evaluation (baton-passing threads) vs sequential reference"),
 }
 PENDING = {
  "C04": "claimed by DESIGN.md; check not yet built at this commit",
- "C07": "claimed by DESIGN.md; check not yet built at this commit",
- "C08": "claimed by DESIGN.md; check not yet built at this commit",
  "C09": "claimed by DESIGN.md; check not yet built at this commit",
  "C12": "claimed by DESIGN.md; check not yet built at this commit",
  "C13": "claimed by DESIGN.md; check not yet built at this commit",
